@@ -555,10 +555,17 @@ func runCase(run *vf.Run, raw json.RawMessage, dir string) *vf.Result {
 			return res
 		}
 		if err := e.settle(e.lock + 1); err != nil {
-			return herr("settle", err)
+			// With auto_vacuum the pointer-map page that would fall on the lock page is moved to
+			// lock+1 (page size 1024: (lock-2) is a multiple of the pointer-map period), and a
+			// database never ends on a pointer-map page: this size does not exist for this page size.
+			res.Count("justbeyond_size_does_not_exist(pointer-map page behind the lock page)", 1)
+			e.logf("page_count %d cannot be reached: %v", e.lock+1, err)
+			if err := e.growTo(e.lock + 2); err != nil {
+				return herr("grow", err)
+			}
 		}
 		pc, _ = e.pageCount()
-		e.logf("database now ends exactly one page behind the lock page: %d pages", pc)
+		e.logf("database now ends behind the lock page: %d pages (lock page %d)", pc, e.lock)
 		reached = pc == e.lock+1
 		if !e.must("SyncAndWait(shrunk to one page behind the lock page)", e.ls.SyncAndWait(ctx)) {
 			return res
